@@ -39,8 +39,10 @@ NOT_DECIDED = [
     "-B_{t_i t_j} is not the second derivative of any pair energy)",
     "pairs exactly at the cutoff r_ij = rc (the documented energy is not twice differentiable there; the contract follows the inclusive test r <= rc) "
     "and, for harmonic/Hertz, pairs exactly at contact r = sigma (outside the precondition of the C12 contract)",
-    "number of species K > 3 (the species case split is enumerated: K = 1, 2, 3 in 2-D, K = 1 in 3-D in the quick tier; the code path is the same for all K; "
-    "d=3/K=2 is proved by the same contract off-line, case string `d=3/K=2`, about 3 min on one core)",
+    "number of species K > 5 (the species case split is enumerated: K = 1, 2, 3 in the quick tier (3-D: K = 1, 3), d=3/K=2 and K = 4, 5 in the thorough tier "
+    "(Diagonalize.thorough_cases); the code path is the same for all K)",
+    "code that observes the insertion order of the masses dict (values(), iteration): the contract leaves the order unspecified, the engine stops (UNDECIDED) "
+    "and only the replay (descending / shuffled insertion orders, unequal masses) decides",
     "the change '<=' -> '<' of the cutoff test differs from the contract only at exact ties r_ij = rc: the obligation is then not proved and no "
     "float input shows it (UNDECIDED, exit 2), not a VIOLATION",
 ]
@@ -978,7 +980,7 @@ class Diagonalize(Unit):
         yield ("symmetric:H[i.d+p,j.d+q]=H[j.d+q,i.d+p]", z3.Implies(z3.And(inr, SYM), Z(sv.cmp("==", blk(i, p, j, q), blk(j, q, i, p)))),
                {"assume": [w_sym, bo_sym], "solver_opts": dict(self.solver_opts, pointwise=[lambda x: bd_sym_at(sv.SV(x))])})
         # ---------------------------------------------------------------- (b) uniform translations
-        s_i, s_n = S.sqrt_mass(i), S.sqrt_mass(n)
+        s_i = S.sqrt_mass(i)
         Bii, Bij = S.block(i, n, "ii"), S.block(i, n, "ij")
         cross = conj([sv.cmp("==", Bij[a][b], sv.neg(Bii[a][b])) for a, b in comps])
         yield "translations:cross-derivative:d2u/da.db=-d2u/da.da-at-D(i,n)", sv.generalize(cross, Din)[0], {"ring_only": True}
@@ -1305,6 +1307,6 @@ def extra_checks(tier, seed, repo):
 
 
 MANIFEST = {
-    "text": "For d in {2,3}, symbolic particle number N, symbolic positions, any non-singular cell, any periodicity mask in {0,1}^d, K in {1,2,3} species (2-D; K = 1 in 3-D) with arbitrary positive masses and arbitrary K x K parameter matrices, both shift settings and every potential selectable through PairInteractions.caller: (1) HessianMatrix.pair_matrix returns d2 phi(|a-b|)/da.da and d2 phi(|a-b|)/da.db (= minus the former) with phi' = s1 - s1rc, phi'' = s2, the derivatives being produced by symbolic differentiation of phi(sqrt(sum (a_k-b_k)^2)); the block is symmetric; (2) in HessianMatrix.diagonalize_hessian every entry of the matrix that is saved, and that is passed to eigh, equals the entry of M^-1/2 d2U M^-1/2: off-diagonal block -[r_ij <= rc] B(D(i,j))/sqrt(m_i m_j), diagonal block sum_j [r_ij <= rc] B(D(i,j))/m_i, with D the minimum image of C02 and the pair triple of C12 evaluated at (r_ij, eps, sigma, rc of the two types, shift) (both particle loops by written summaries with init/step obligations); which files are written, saved eigenvectors = eigh output, omega = sqrt(lambda) for lambda > 0 else lambda, PR column = participation ratio of the eigenvector reshaped to (N, d); inputs not written; (3) from that entry-wise form alone, at symbolic particles i, j and components p, q: the saved matrix is symmetric, H[i d+p, j d+q] = H[j d+q, i d+p], when the parameter matrices are symmetric in the two types (minimum image odd, |D(j,i)| = |D(i,j)|, symmetric neighbour relation, B(-x)^T = B(x), mixed partials commute, Sigma-extensionality for the diagonal block), and every row annihilates the mass-weighted uniform translations, sum_j H[i d+p, j d+q] sqrt(m_j) = 0, for every mask (pair summand (B/m_i) sqrt(m_i) - (B/sqrt(m_i m_j)) sqrt(m_j) = 0, split of the row sum at j = i and the constant factor sqrt(m_i) by two inductions over the upper limit); (4) participation_ratio = (sum|e|^2)^2/(N sum|e|^4) and lies in (0,1] for every non-zero field (Cauchy-Schwarz by induction over N); the PR written for every mode lies in (0,1]: the reshaped eigenvector is a non-zero field by eigh's normalisation and the regrouping sum_{b<dN} f(b) = sum_{n<N} sum_{c<d} f(n d+c) (induction, base + step), Cauchy-Schwarz for that field by induction.",
-    "note": "floats as reals (A1); np.linalg.eigh assumed (relational; its column normalisation is used for the PR range); callee contracts of caller (C12, generalised) and remove_pbc (C02); no-coincident-particles and types-in-1..K as preconditions; symmetric parameter matrices are the hypothesis of the symmetry clause only; the induction principle and the instantiation of facts proved at fresh indices are the trusted rules (TRUSTED); K > 3 and d=3 with K >= 2 are not enumerated in the quick tier; on the repository before the fix d593b58 the obligation assembly:diagonal-block fails (diagonal block weighted 1/sqrt(m_i m_j) instead of 1/m_i) - see design_notes/C11.md, fix design_notes/C11.fix-1.diff",
+    "text": "For d in {2,3}, symbolic particle number N, symbolic positions, any non-singular cell, any periodicity mask in {0,1}^d, K in {1,2,3} species (quick tier: K = 1,2,3 in 2-D, K = 1,3 in 3-D; thorough tier adds d=3/K=2 and K = 4, 5 in both dimensions) with arbitrary positive masses given as a map type id -> mass in any insertion order and arbitrary K x K parameter matrices, both shift settings and every potential selectable through PairInteractions.caller: (1) HessianMatrix.pair_matrix returns d2 phi(|a-b|)/da.da and d2 phi(|a-b|)/da.db (= minus the former) with phi' = s1 - s1rc, phi'' = s2, the derivatives being produced by symbolic differentiation of phi(sqrt(sum (a_k-b_k)^2)); the block is symmetric; (2) in HessianMatrix.diagonalize_hessian every entry of the matrix that is saved, and that is passed to eigh, equals the entry of M^-1/2 d2U M^-1/2: off-diagonal block -[r_ij <= rc] B(D(i,j))/sqrt(m_i m_j), diagonal block sum_j [r_ij <= rc] B(D(i,j))/m_i, with D the minimum image of C02 and the pair triple of C12 evaluated at (r_ij, eps, sigma, rc of the two types, shift) (both particle loops by written summaries with init/step obligations); which files are written, saved eigenvectors = eigh output, omega = sqrt(lambda) for lambda > 0 else lambda, PR column = participation ratio of the eigenvector reshaped to (N, d); inputs not written; (3) from that entry-wise form alone, at symbolic particles i, j and components p, q: the saved matrix is symmetric, H[i d+p, j d+q] = H[j d+q, i d+p], when the parameter matrices are symmetric in the two types (minimum image odd, |D(j,i)| = |D(i,j)|, symmetric neighbour relation, B(-x)^T = B(x), mixed partials commute, Sigma-extensionality for the diagonal block), and every row annihilates the mass-weighted uniform translations, sum_j H[i d+p, j d+q] sqrt(m_j) = 0, also in the form (H M^1/2 e_q)[i d+p] = 0 over the flat column index, for every mask (pair summand (B/m_i) sqrt(m_i) - (B/sqrt(m_i m_j)) sqrt(m_j) = 0, split of the row sum at j = i and the constant factor sqrt(m_i) by two inductions over the upper limit, regrouping of the flat index by a third); (4) participation_ratio = (sum|e|^2)^2/(N sum|e|^4) and lies in (0,1] for every non-zero field (Cauchy-Schwarz by induction over N); the PR written for every mode lies in (0,1]: the reshaped eigenvector is a non-zero field by eigh's normalisation and the regrouping sum_{b<dN} f(b) = sum_{n<N} sum_{c<d} f(n d+c) (induction, base + step), Cauchy-Schwarz for that field by induction.",
+    "note": "floats as reals (A1); np.linalg.eigh assumed (relational; its column normalisation is used for the PR range); callee contracts of caller (C12, generalised) and remove_pbc (C02); no-coincident-particles and types-in-1..K as preconditions; symmetric parameter matrices are the hypothesis of the symmetry clause only; the induction principle and the instantiation of facts proved at fresh indices are the trusted rules (TRUSTED); K > 5 is not enumerated (K = 4, 5 and d=3/K=2 only in the thorough tier); code that uses the masses dict positionally is an engine limit decided by the replay; on the repository before the fix d593b58 the obligation assembly:diagonal-block fails (diagonal block weighted 1/sqrt(m_i m_j) instead of 1/m_i) - see design_notes/C11.md, fix design_notes/C11.fix-1.diff",
 }
